@@ -3472,9 +3472,12 @@ func (r *Resolver) checkPriming() {
 			if v6, ok := r.(*dns.AAAA); ok {
 				serverName := strings.ToLower(v6.Header().Name)
 				if nsServers[serverName] {
-					foundServers[serverName] = true
-					if addr, valid := netip.AddrFromSlice(v6.AAAA); valid {
-						endpoint := netip.AddrPortFrom(addr.Unmap(), 53)
+					// Priming glue is glue: unsigned even under a validated
+					// NS RRset, so it passes the same address filter as a
+					// referral's (no loopback, unspecified or local address).
+					if addr, valid := usableAddr(v6.AAAA); valid {
+						foundServers[serverName] = true
+						endpoint := netip.AddrPortFrom(addr, 53)
 						if _, ok := seenEndpoints[endpoint]; !ok {
 							seenEndpoints[endpoint] = struct{}{}
 							tmpservers.List = append(tmpservers.List, authority.NewServerFromAddrPort(endpoint))
@@ -3490,9 +3493,9 @@ func (r *Resolver) checkPriming() {
 		if v4, ok := r.(*dns.A); ok {
 			serverName := strings.ToLower(v4.Header().Name)
 			if nsServers[serverName] {
-				foundServers[serverName] = true
-				if addr, valid := netip.AddrFromSlice(v4.A); valid {
-					endpoint := netip.AddrPortFrom(addr.Unmap(), 53)
+				if addr, valid := usableAddr(v4.A); valid {
+					foundServers[serverName] = true
+					endpoint := netip.AddrPortFrom(addr, 53)
 					if _, ok := seenEndpoints[endpoint]; !ok {
 						seenEndpoints[endpoint] = struct{}{}
 						tmpservers.List = append(tmpservers.List, authority.NewServerFromAddrPort(endpoint))
